@@ -42,8 +42,8 @@ def build_demo(d, tag):
     cmd = None
     if os.path.exists(bs):
         txt = open(bs).read()
-        txt = re.sub(r"/tmp/mut/wt-C\d\d", WT, txt)
-        txt = re.sub(r"/tmp/mut/out\d?/C\d\d/m\d", work, txt)
+        txt = re.sub(r"/tmp/mut\d*/wt-C\d\d", WT, txt)
+        txt = re.sub(r"/tmp/mut\d*/out\d?/C\d\d/m\d", work, txt)
         open(os.path.join(work, "build.sh"), "w").write(txt)
         cmd = "sh ./build.sh"
     else:
